@@ -5,6 +5,7 @@ import numpy as np
 from hypothesis import strategies as st
 
 from vf.harness import Check
+from vf.gen.util import weighted
 from vf.gen import lens as GL
 from vf.gen.build import build
 from vf.gen import samples as GS
@@ -49,7 +50,7 @@ def op_strategy():
     solve = ops[7]
     upd = ops[8]
     pick = ops[6]
-    return st.lists(st.one_of(ops + [solve, solve, upd, upd, pick]), min_size=4, max_size=30)
+    return st.lists(weighted(*([(1, x) for x in ops] + [(2, solve), (2, upd), (1, pick)])), min_size=4, max_size=30)
 
 
 def solve_history():
@@ -62,7 +63,7 @@ def solve_history():
         st.fixed_dictionaries(dict(op=st.just('set_thickness'), s=st.integers(0, 1), v=f(0.5, 20.0))),
         st.fixed_dictionaries(dict(op=st.just('set_radius'), s=sel, v=val_R)),
         st.fixed_dictionaries(dict(op=st.just('set_conic'), s=sel, v=val_k)))
-    return st.tuples(st.lists(solve, min_size=2, max_size=3), st.lists(st.one_of(edit, edit, upd, solve), min_size=1, max_size=8)
+    return st.tuples(st.lists(solve, min_size=2, max_size=3), st.lists(weighted((2, edit), (1, upd), (1, solve)), min_size=1, max_size=8)
                      ).map(lambda t: t[0] + t[1] + [dict(op='update')])
 
 
@@ -98,7 +99,7 @@ class C01(Check):
         edit = st.fixed_dictionaries(dict(kind=st.just('edit'), spec=GL.lens_spec(EDIT), ops=op_strategy()))
         stop = st.fixed_dictionaries(dict(kind=st.just('stop'), spec=GL.lens_spec(EDIT, max_surfs=5), ops=stop_ops()))
         solves = st.fixed_dictionaries(dict(kind=st.just('edit'), spec=GL.lens_spec(SOLVE, min_surfs=3), ops=solve_history()))
-        return st.one_of(edit, edit, edit, edit, edit, solves, stop)
+        return weighted((5, edit), (1, solves), (1, stop))
 
     def describe(self, case):
         s = case['spec']
